@@ -108,7 +108,7 @@ void Gen::BlockRef(bool reading, NiRef* r, const std::type_info* t, std::streams
 	refTarget = n;
 	wanted.insert(n);
 	forceEmptyRef = false;
-	if (ver && ver->file == 0x14020007 && ver->stream == 100)
+	if (ver && ver->file == 0x14020007 && ver->user >= 12 && ver->stream < 130)
 		if (auto bs = dynamic_cast<BSTriShape*>(obj))
 			if (r == bs->SkinInstanceRef()) forceEmptyRef = true;
 }
@@ -221,7 +221,7 @@ void Gen::fill(char* s, size_t n) {
 					bool sse = ver && ver->file == 0x14020007 && ver->stream == 100;
 					// shape rules (DESIGN 1.3): extra floats only in full-precision layouts; no skinned BSTriShape in synthesised SSE
 					// files (its vertex data lives in a linked NiSkinPartition: covered by S-real / S-api instead)
-					if (sse && dynamic_cast<BSTriShape*>(obj)) fl &= ~0x40ull;
+					if (ver && ver->user >= 12 && ver->stream < 130 && dynamic_cast<BSTriShape*>(obj)) fl &= ~0x40ull;   // writer keeps such shapes' data in the partition
 					if (rng.below(3) == 0) fl |= 0x400;
 					uint64_t extras = (fl & 0x2) && ((fl & 0x400) || sse) && rng.below(4) == 0 ? rng.below(3) : 0;
 					c = (fl << 44) | ((uint64_t)(4 + extras) << 8);
